@@ -17,7 +17,7 @@ PROPERTY = 'C02'
 FUNCTIONS = ['frappy.datatypes.*.{export_value,import_value,validate,export_datatype,to_string,from_string,format_value}',
              'frappy.datatypes.get_datatype', 'frappy.properties.HasProperties.exportProperties']
 ASSUMPTIONS = ['valid values are generated from the value set itself (symbolic member of [min,max], grid index, container lengths 0..3)',
-               'scaled integers: grid index box +-8 (see C01), scale catalogue',
+               'scaled integers: grid index box +-8 (see C01), scales {0.1, 0.5, 3, 1e6, 0.001, 2**-10, 1/3, 1.000001}',
                'strings/blobs: catalogue literals incl. non-ASCII, quotes, backslash, newline, all-byte-values blob',
                'text form of float leaves is checked on solver-chosen witness models only (sampled, not solver-decided)',
                'JSON text is produced by the real json module on witness models; symbolically only the JSON kinds are decided']
@@ -37,7 +37,7 @@ def cases(tier):
     out = []
     leaves = {'double': D, 'double-unlimited': DU, 'double-absres': DA, 'double-deg': DDEG, 'int': I, 'int-deg': IDEG,
               'bool': B, 'enum': ENUM, 'scaled0.1': SC(0.1), 'scaled0.5': SC(0.5), 'scaled3': SC(3), 'scaled1e6': SC(1e6),
-              'scaled0.001': SC(0.001)}
+              'scaled0.001': SC(0.001), 'scaled2^-10': SC(2 ** -10), 'scaled1/3': SC(1 / 3), 'scaled1.000001': SC(1.000001)}
     for n, s in leaves.items():
         out.append(case(n, s))
     for i, lit in enumerate(STRS):
